@@ -15,9 +15,10 @@ void harness(void) {
 	VF_NONDET_OBJ(ec_point_proj_t, B);
 	VF_NONDET_OBJ(ec_point_t, P);
 	VF_NONDET_OBJ(ec_point_t, Q);
+	VF_NONDET_OBJ(ec_point_t, P2);
 	VF_NONDET_OBJ(bn_t, d);
 	VF_NONDET_OBJ(bn_t, e);
-	VF_ASSUME(VF_EC_PP_WF(A) && VF_EC_PP_WF(B) && VF_EC_POINT_WF(P) && VF_EC_POINT_WF(Q) && vf_bn_wf(d) && vf_bn_wf(e));
+	VF_ASSUME(VF_EC_PP_WF(A) && VF_EC_PP_WF(B) && VF_EC_POINT_WF(P) && VF_EC_POINT_WF(Q) && VF_EC_POINT_WF(P2) && vf_bn_wf(d) && vf_bn_wf(e));
 	VF_EC_GHOST_RESET();
 	int r;
 #ifndef VF_ALIAS
@@ -72,6 +73,42 @@ void harness(void) {
 	ec_point_proj_unkpt_mult_data_t *md = (ec_point_proj_unkpt_mult_data_t *)malloc(sizeof(ec_point_proj_unkpt_mult_data_t));
 	__CPROVER_assume(md != NULL);
 	r = ec_point_proj_unkpt_mult_affine(&P, md, &d, curve);
+#elif defined(VF_FN_combo)
+	VF_NONDET(size_t, bit_off);
+	VF_NONDET(size_t, wnd_bits);
+	VF_NONDET(size_t, wnd_count);
+	VF_ASSUME(wnd_bits < BN_DIGIT_BITS);
+	bn_digit_t col = bn_combo_column_get(&d, bit_off, wnd_bits, wnd_count);
+	(void)col; r = 0;
+#elif defined(VF_FN_comb1t_mult)
+	ec_point_proj_fpx_comb1t_mult_data_t *md = (ec_point_proj_fpx_comb1t_mult_data_t *)malloc(sizeof(ec_point_proj_fpx_comb1t_mult_data_t));
+	__CPROVER_assume(md != NULL);
+	VF_ASSUME(VF_COMB_HDR(md) && VF_PT_ARR_WF(md->pt_add_arr, EC_PF_FXP_MULT_NUM_POINTS));
+	VF_ASSUME(md->wnd_count <= VF_MAX_WC);	/* bound of this job: ladder length */
+	r = ec_point_proj_fpx_comb1t_mult(&A, md, &d, curve);
+	if (r == 0 && vf_n_pop >= 3) VF_CANARY("C02 comb1t: ladder iterations reachable");
+#elif defined(VF_FN_comb2t_mult)
+	ec_point_proj_fpx_comb2t_mult_data_t *md = &curve->G_fpx_mult_data;
+	VF_ASSUME(VF_COMB_HDR(md) && md->e_count <= BN_BIT_LEN && VF_PT_ARR_WF(md->pt_add_arr, EC_PF_FXP_MULT_NUM_POINTS) &&
+	    VF_PT_ARR_WF(md->pt_dbl_arr, EC_PF_FXP_MULT_NUM_POINTS));
+	VF_ASSUME(md->e_count <= VF_MAX_WC);	/* bound of this job: ladder length */
+	r = ec_point_proj_fpx_comb2t_mult(&A, md, &d, curve);
+	if (r == 0 && vf_n_pop >= 3) VF_CANARY("C02 comb2t: ladder iterations reachable");
+#elif defined(VF_FN_comb1t_pre)
+	ec_point_proj_fpx_comb1t_mult_data_t *md = (ec_point_proj_fpx_comb1t_mult_data_t *)malloc(sizeof(ec_point_proj_fpx_comb1t_mult_data_t));
+	__CPROVER_assume(md != NULL);
+	VF_NONDET(size_t, wnd_bits);
+	VF_ASSUME(wnd_bits <= VF_MAX_WND);
+	r = ec_point_proj_fpx_comb1t_mult_precompute_affine(wnd_bits, &P, curve, md);
+	if (r == 0 && wnd_bits == VF_MAX_WND && md->wnd_bits != 0) VF_CANARY("C02 comb1t precompute: full table built");
+#elif defined(VF_FN_inter_pre)
+	ec_point_t tbl[4];
+	VF_NONDET(size_t, wnd_bits);
+	VF_ASSUME(wnd_bits == 4);	/* EP_DEPTH == EP_WIDTH == 4: the only call sites */
+	r = ec_point_proj_inter_twin_mult_precalc_affine(&P, wnd_bits, curve, tbl);
+#elif defined(VF_FN_inter_twin)
+	r = ec_point_proj_inter_twin_mult_affine(&P, &d, &Q, &e, curve, &P2);
+	if (r == 0 && vf_n_pop >= 6) VF_CANARY("C02 inter twin: ladder iterations reachable");
 #elif defined(VF_FN_mult_bp)
 	r = ec_point_mult_bp(&d, curve, &P);
 #elif defined(VF_FN_twin_mult_bp)
